@@ -6,8 +6,6 @@ Local Open Scope Z_scope.
 
 Ltac conj_refl := lazymatch goal with |- _ /\ _ => split; [reflexivity|conj_refl] | _ => reflexivity end.
 
-(** * witnesses: where the unchanged code departs from the property *)
-
 Definition w_a : bytes := [47; 97]%N.             (* "/a"   *)
 Definition w_ab : bytes := [47; 97; 58; 98]%N.    (* "/a:b" *)
 Definition w_b : bytes := [47; 98]%N.             (* "/b"   *)
@@ -15,30 +13,20 @@ Definition w_bc : bytes := [98; 58; 99]%N.        (* "b:c"  *)
 Definition w_c : bytes := [99]%N.                 (* "c"    *)
 Definition w_r : bytes := [114]%N.                (* "r"    *)
 
-(** (a) key collision: "/a" + ":" + "b:c" = "/a:b" + ":" + "c" *)
+(** the former collision "/a" ":" "b:c" = "/a:b" ":" "c": the keys are pairs now, both jobs live side by side *)
 Definition w_collision : list op :=
   [OOnce w_a w_a w_bc 100 1; OOnce w_ab w_ab w_c 50 2; OCancel w_ab w_c; OTick 1000].
-
-Lemma wit_collision :
-  (w_a, w_bc) <> (w_ab, w_c) /\ job_key w_a w_bc = job_key w_ab w_c /\
+Lemma wit_no_collision :
   run_res w_collision init = [ROk; ROk; ROk; RUnit] /\
-  fired (run w_collision init) = [] /\ spin (run w_collision init) = false /\ dead (run w_collision init) = ∅.
-Proof. split; [discriminate|]. vm_compute. conj_refl. Qed.
-
-(** the owner of the colliding reference dies: the other actor's job dies with it *)
-Definition w_collision_death : list op :=
-  [OLoop w_a w_a w_bc 100 1; OOnce w_ab w_ab w_c 50 2; ODied w_ab; OTick 1000].
-Lemma wit_collision_death :
-  run_res w_collision_death init = [ROk; ROk; RUnit; RUnit] /\ fired (run w_collision_death init) = [] /\
-  is_dead (run w_collision_death init) w_a = false.
+  map (fun f => (f_payload f, f_time f)) (fired (run w_collision init)) = [(1%N, 100)].
 Proof. vm_compute. conj_refl. Qed.
 
-(** (b) a live reference is used again on the same actor *)
-Definition w_reuse : list op := [OOnce w_a w_a w_r 300 1; OOnce w_a w_a w_r 50 2; OTick 1000].
+(** a live reference used again: quartz's error is returned, nothing changes, the first job goes on *)
+Definition w_reuse : list op :=
+  [OOnce w_a w_a w_r 300 1; OOnce w_a w_a w_r 50 2; OLoop w_a w_a w_r 50 3; OTick 1000; OOnce w_a w_a w_r 50 4; OTick 1000].
 Lemma wit_reuse :
-  run_res w_reuse init = [ROk; ROk; RUnit] /\
-  map (fun f => (f_payload f, f_time f)) (fired (run w_reuse init)) = [(1%N, 300)] /\
-  fires_of 1 (run w_reuse init) = [] /\ spin (run w_reuse init) = false.
+  run_res w_reuse init = [ROk; RExists; RExists; RUnit; ROk; RUnit] /\
+  map (fun f => (f_payload f, f_time f)) (fired (run w_reuse init)) = [(1%N, 300); (4%N, 1050)].
 Proof. vm_compute. conj_refl. Qed.
 
 (** after a Once has fired its reference stays in jobKeys: Exists answers true, Cancel answers quartz's error *)
@@ -46,11 +34,11 @@ Definition w_stale : list op := [OOnce w_a w_a w_r 50 1; OTick 100; OExists w_a 
 Lemma wit_stale : run_res w_stale init = [ROk; RUnit; RBool true; RQuartzNotFound; RNotFound].
 Proof. vm_compute. reflexivity. Qed.
 
-(** (d) quartz's misfire rule: the loop does not run for more than 100 ms across the deadline *)
+(** quartz's misfire rule: the loop does not run for more than 100 ms across the deadline *)
 Definition w_stall : list op := [OOnce w_a w_a w_r 500 1; OStall 700; OTick 100000; OExists w_a w_r].
 Lemma wit_stall :
   run_res w_stall init = [ROk; RUnit; RUnit; RBool true] /\ fired (run w_stall init) = [] /\
-  map_to_list (tbl (run w_stall init)) = [] /\ spin (run w_stall init) = false.
+  map_to_list (tbl (run w_stall init)) = [].
 Proof. vm_compute. conj_refl. Qed.
 
 Definition w_stall_loop : list op := [OLoop w_a w_a w_r 100 1; OStall 250; OTick 300].
@@ -58,9 +46,9 @@ Lemma wit_stall_loop :
   map f_time (fired (run w_stall_loop init)) = [350; 450; 550] /\ now (run w_stall_loop init) = 550.
 Proof. vm_compute. split; reflexivity. Qed.
 
-(** a SimpleTrigger with an interval <= 0 *)
-Lemma wit_loop_nonpositive :
-  spin (run [OLoop w_a w_a w_r 0 1; OTick 0] init) = true /\
-  spin (run [OLoop w_a w_a w_r (-1000) 1; OTick 0] init) = true /\
-  run_res [OLoop w_a w_a w_r (-1000) 1; OTick 0; OOnce w_b w_b w_r 300 2] init = [ROk; RUnit; RSpin].
-Proof. vm_compute. conj_refl. Qed.
+(** rejected arguments *)
+Lemma wit_rejected :
+  run_res [OOnce w_a w_a w_r (-1) 1; OLoop w_a w_a w_r 0 2; OLoop w_a w_a w_r (-1000) 3; OOnce w_a w_a [] 5 4; OOnce w_a w_a w_r 0 5;
+           OCron w_a w_a w_c false 6; OTick 10; ODump [w_a]] init
+  = [RIllegalArg; RIllegalArg; RIllegalArg; REmptyRef; ROk; RParseErr; RUnit; RDump [(w_a, [w_r])] []].
+Proof. vm_compute. reflexivity. Qed.
